@@ -14,17 +14,21 @@ use crate::logs::{LogReader, LogWriter};
 
 /// Open a log writer on `path` (append mode or truncating) and append `records` in order.
 ///
-/// Returns one result per record; stops at the first failure.
+/// Returns one result per record (the file length after the append); stops at the first failure.
 pub fn log_write(
     fs: Arc<dyn FileSystem>,
     path: &Path,
     is_appending: bool,
     records: &[Vec<u8>],
-) -> Result<Vec<Result<(), String>>, String> {
-    let mut writer = LogWriter::new(fs, path, is_appending).map_err(|e| e.to_string())?;
+) -> Result<Vec<Result<u64, String>>, String> {
+    let mut writer =
+        LogWriter::new(Arc::clone(&fs), path, is_appending).map_err(|e| e.to_string())?;
     let mut results = Vec::with_capacity(records.len());
     for record in records {
-        let res = writer.append(record).map_err(|e| e.to_string());
+        let res = writer
+            .append(record)
+            .map_err(|e| e.to_string())
+            .and_then(|_| fs.get_file_size(path).map_err(|e| e.to_string()));
         let failed = res.is_err();
         results.push(res);
         if failed {
